@@ -10,12 +10,16 @@
                             out-of-range size.
   * `servfail_shape`      : the SERVFAIL carries the query's ID, QR=1, RCODE=2.
   "Never another client's answer": the reply is a function of this handler's own query and
-  outcome (`udpReply q o`, `tcpReply q o`); buffer ownership between handlers is `sync.Pool`
-  semantics (trusted) and is exercised by the concurrent socket harness (`sockconc` area).
+  outcome (`udpReply q o`, `tcpReply q o`) PROVIDED no other goroutine writes into this handler's
+  buffers. That is `pool_cert_ok` (regenerated ownership certificates of every pooled buffer
+  variable: used and put back only while owned, on every path) + `pool_no_alias` (a `sync.Pool`
+  used with that discipline never has two holders of one buffer, in any interleaving);
+  `double_put_aliases` shows what the discipline excludes. Also exercised by `sockconc`.
 -/
 import NV.Model.Reply
 import NV.Model.CFG
 import NV.Gen.ProxyCFG
+import NV.Lemmas.Pool
 namespace NV.C01
 open NV NV.CFG NV.Gen
 
@@ -171,5 +175,85 @@ theorem servfail_shape (q : Query) (hid : q.id < 65536) :
     simp [rd16, be16, byteAt, b8, UInt8.toNat_ofNat']
     omega
   split <;> (simp [be16, rd16, byteAt, b8, UInt8.toNat_ofNat']; omega)
+
+
+/-! ### buffer ownership: never another client's answer -/
+
+/-- **C01 (regenerated)**: every pooled-buffer variable of `serveUDP`, `serveTCPConn` and their
+handler closures passes the ownership certificate: on EVERY path the buffer is read, written,
+sliced, put back or handed to a goroutine only while this goroutine owns it; a handler owns the
+query buffer from its first instruction; what a deferred function puts back is owned at every
+point where a panic could unwind (`strict`); nothing is put back twice. -/
+theorem pool_cert_ok :
+    (ProxyCFG.allPools.all fun e => checkL e.2.2.2.2 e.2.1 e.2.2.1 e.2.2.2.1) = true := by decide
+
+/-- the extraction is not vacuous: two variables per transport (query buffer in the listener loop
+and in the handler, reply buffer in the handler), the loops take buffers from the pool, use them
+and hand them to handlers, the handlers use them and put them back in a deferred function. -/
+theorem pool_nonvacuous :
+    ProxyCFG.allPools.length = 6 ∧
+    (ProxyCFG.pool_serveUDP_buf.any fun b => b.evs.contains .acq) = true ∧
+    (ProxyCFG.pool_serveUDP_buf.any fun b => b.evs.contains .spawn) = true ∧
+    (ProxyCFG.pool_serveUDP_buf.any fun b => b.evs.contains .need) = true ∧
+    (ProxyCFG.pool_serveUDP_buf.any fun b => b.evs.contains .rel) = true ∧
+    (ProxyCFG.pool_serveTCPConn_buf.any fun b => b.evs.contains .acq) = true ∧
+    (ProxyCFG.pool_serveTCPConn_buf.any fun b => b.evs.contains .spawn) = true ∧
+    (ProxyCFG.pool_serveUDP_handler0_buf.any fun b => b.evs.contains .need) = true ∧
+    (ProxyCFG.pool_serveUDP_handler0_buf.any fun b => b.evs.contains .deferRel) = true ∧
+    (ProxyCFG.pool_serveUDP_handler0_rbuf.any fun b => b.evs.contains .acq) = true ∧
+    (ProxyCFG.pool_serveUDP_handler0_rbuf.any fun b => b.evs.contains .need) = true ∧
+    (ProxyCFG.pool_serveUDP_handler0_rbuf.any fun b => b.evs.contains .deferRel) = true ∧
+    (ProxyCFG.pool_serveTCPConn_handler0_buf.any fun b => b.evs.contains .deferRel) = true ∧
+    (ProxyCFG.pool_serveTCPConn_handler0_rbuf.any fun b => b.evs.contains .need) = true ∧
+    ProxyCFG.pool_serveUDP_handler0_buf_init = (1, 0) ∧ ProxyCFG.pool_serveUDP_handler0_rbuf_init = (0, 0) ∧
+    ProxyCFG.pool_serveUDP_handler0_buf_strict = true ∧ ProxyCFG.pool_serveTCPConn_handler0_buf_strict = true := by
+  decide
+
+/-- lifted to every program point of every path (any number of loop iterations): a use (`need`),
+a `Put` (`rel`) or a hand-over (`spawn`) of a pooled buffer happens only while it is owned. -/
+theorem pool_use_owned (e : String × Prog × Cert × St × Bool) (he : e ∈ ProxyCFG.allPools)
+    (i : Nat) (s : St) (b : Block) (pre post : List Ev) (ev : Ev)
+    (hr : Reach e.2.1 e.2.2.2.1 i s) (hb : e.2.1[i]? = some b) (hsplit : b.evs = pre ++ ev :: post)
+    (hev : ev = .need ∨ ev = .rel ∨ ev = .spawn) : 1 ≤ (runEvs pre s).1 := by
+  have hall := pool_cert_ok
+  rw [List.all_eq_true] at hall
+  have hc := hall e he
+  have h := point_okL e.2.2.2.2 e.2.1 e.2.2.1 e.2.2.2.1 hc i s b hr hb pre ev post hsplit
+  rcases hev with rfl | rfl | rfl <;> simp [Ev.okAfter, Ev.apply] at h <;> omega
+
+/-- nothing is put back twice through a deferred function: at every exit the deferred `Put`s do
+not exceed what is owned -/
+theorem pool_no_double_put_at_exit (e : String × Prog × Cert × St × Bool) (he : e ∈ ProxyCFG.allPools)
+    (i : Nat) (s : St) (b : Block) (hr : Reach e.2.1 e.2.2.2.1 i s) (hb : e.2.1[i]? = some b)
+    (hexit : b.succs = []) : (runEvs b.evs s).2 ≤ (runEvs b.evs s).1 := by
+  have hall := pool_cert_ok
+  rw [List.all_eq_true] at hall
+  exact exit_no_excessL e.2.2.2.2 e.2.1 e.2.2.1 e.2.2.2.1 (hall e he) i s b hr hb hexit
+
+open NV.Pool in
+/-- **C01 (never another client's answer)**: in every interleaving of any number of goroutines
+that take buffers from the pool, put back / hand over / drop only buffers they hold (the discipline
+`pool_use_owned` establishes for the real handlers), no buffer ever has two holders, and a pooled
+buffer has none: the bytes a handler reads its query from and writes its reply to are touched by
+no other handler. -/
+theorem pool_no_alias (os : List Op) (s : S) (hd : allDisciplined init os = true)
+    (hr : run init os = some s) (b : Nat) :
+    (s.holders b).length ≤ 1 ∧ (s.inPool b = true → s.holders b = []) := by
+  have hi := inv_run os init s inv_init hd hr
+  exact ⟨hi.1 b, hi.2.1 b⟩
+
+open NV.Pool in
+/-- what the discipline excludes: a buffer put back twice (by its handler and again by a goroutine
+that no longer holds it, e.g. a per-connection `defer Put` beside the handlers' own) is handed to
+two clients' handlers at once -/
+theorem double_put_aliases :
+    ∃ s, run init [.new 1, .put 1 0, .get 2 0, .put 1 0, .get 3 0] = some s ∧ s.holders 0 = [3, 2] ∧
+      allDisciplined init [.new 1, .put 1 0, .get 2 0, .put 1 0, .get 3 0] = false :=
+  ⟨_, rfl, rfl, rfl⟩
+
+open NV.Pool in
+example : ∃ s, run init [.new 1, .hand 1 2 0, .new 2, .put 2 0, .put 2 1, .get 3 1] = some s ∧
+    allDisciplined init [.new 1, .hand 1 2 0, .new 2, .put 2 0, .put 2 1, .get 3 1] = true ∧ s.holders 1 = [3] :=
+  ⟨_, rfl, rfl, rfl⟩
 
 end NV.C01
